@@ -46,6 +46,11 @@ def hooks_present():
     return os.path.exists(os.path.join(REPO, "src", "verif.rs"))
 
 
+class BuildFailed(ToolError):
+    """The harness does not compile against the crate as it is (for the variant that holds `embed!`
+    this is an observation about the macro, see checks/c04.py)."""
+
+
 def build_harness(features=()):
     """cargo build the harness against /repo's working tree (hooks on)."""
     key = tuple(sorted(features))
@@ -69,7 +74,7 @@ def build_harness(features=()):
                        stderr=subprocess.STDOUT, text=True)
     if p.returncode != 0:
         tail = "\n".join(l for l in p.stdout.splitlines() if "warning" not in l)[-6000:]
-        raise ToolError("harness build failed:\n" + tail)
+        raise BuildFailed("harness build failed:\n" + tail)
     bindir = os.path.join(HARNESS, tdir, "debug")
     log(f"[build] harness {key or '(default)'} ok in {time.time()-t0:.1f}s")
     _built[key] = bindir
